@@ -421,6 +421,30 @@ def run(ck, facts):
             if dis_idx is not None:
                 ck.expect(not early, "R4", key + "/nothing-before-disable", "only context bookkeeping precedes the test", "for every item, also one disabled for this backend, the loop first calls %s: "
                           "an item switched off because this backend cannot represent it (reserved name, unsupported shape) still makes the run fail" % early, C.loc(f, n.get("ln")))
+    # ... and what a backend derives from the type list outside its item loop (an index of part files, a list of includes) leaves disabled items out as well:
+    # every other walk over all_types() / all_traits() filters on `disable`
+    nside = 0
+    for f in tool.fn_list:
+        if "hir" not in f or f.get("exp") or f.get("dk") == "Closure" or not re.match(r"^diplomat_tool::(c|cpp|js|dart|kotlin|nanobind|demo_gen)::", C.norm_path(f["path"])):
+            continue
+        loop_iters = {id(x) for lp in C.walk(C.fn_body(f)) if lp.get("k") == "for" for x in C.walk(lp["iter"])}
+        subs_ = {id(C.strip(n["recv"])) for n in C.walk(C.fn_body(f)) if n.get("k") == "mcall"}
+        for n in C.walk(C.fn_body(f)):
+            if n.get("k") != "mcall" or id(n) in subs_ or id(n) in loop_iters:
+                continue
+            ch, r = [], n
+            while isinstance(r, dict) and r.get("k") == "mcall":
+                ch.append(r)
+                r = C.strip(r["recv"])
+            roots = [c_ for c_ in ch if c_.get("m") in ("all_types", "all_traits") and (C.callee(c_) or "").endswith(("TypeContext::all_types", "TypeContext::all_traits"))]
+            if not roots or len(ch) < 2:
+                continue
+            nside += 1
+            filtered = any(c_.get("m") in ("filter", "filter_map") and any(y.get("k") == "field" and y.get("n") == "disable" for y in C.walk(c_["a"][0])) for c_ in ch if c_.get("a"))
+            ck.expect(filtered, "R4", "%s/side-walk-skips-disabled#%d" % (C.norm_path(f["path"]).replace("diplomat_tool::", ""), nside), "filters on disable",
+                      "%s walks all_types()/all_traits() outside its item loop without skipping disabled items: what it derives (part directives, includes, an index) still names a type "
+                      "that is disabled for this backend and whose file is not generated" % f["name"], C.loc(f, n.get("ln")))
+    ck.note("R4: %d walks over all_types()/all_traits() outside the item loops" % nside)
     if nloops < 8:
         ck.bad("R4", "loops-floor", "only %d backend loops over all_types/all_traits found (8 counted)" % nloops)
 
@@ -497,6 +521,10 @@ def run(ck, facts):
     if nfmt < 12:
         ck.bad("R4", "rename-formatters/floor", "only %d name formatters applying attrs.rename found in cpp/js/dart/nanobind (14 counted)" % nfmt)
 
+    # a renamed method is called by its renamed name everywhere in the backend's own output: the C++ comparison operators call the comparator through `method_name` (C02.R6)
+    if isinstance(ck, C.Check):
+        import c02
+        c02.run(C.SubCheck(ck, "R4", "", ["R6"], key_re=r"comparison-operators"), facts)
     # the pure C backend does not render `rename` at all (every C name -- typedefs, file names, references, symbols -- stays the Rust name): each application of
     # attrs.rename in the C formatter sits under `if self.is_for_cpp`
     nren = 0
